@@ -376,10 +376,42 @@ def main(argv=None):
         # 1. translator (from here to the end of step 3 under the Lean-phase lock)
         LEAN_PHASE_LOCK[0] = stage._lock()
         gen_info = None
-        if hasattr(mod, 'translate'):
-            # source -> lean/Model/Generated/*.lean, regenerated on every run
-            gen_info = mod.translate(stage.REPO, os.path.join(LEAN, 'Model', 'Generated'))
-            log('translator: %s' % gen_info.get('summary', 'ok'))
+        translator_broken = None
+        # source -> lean/Model/Generated/*.lean, regenerated on every run.  Props files import each other (Props.C19
+        # imports Props.C13 and Props.C18), so the translators of every property whose Props module is in this
+        # property's import closure run too: a generated file left by an earlier run against another tree must not
+        # be what this run's obligations are decided on.
+        modules_pre = getattr(mod, 'LEAN_MODULES', ['Props.' + prop_id])
+        closure_pre = ' '.join(import_closure(modules_pre + ['Driver.Main' + prop_id]))
+        gen_dir = os.path.join(LEAN, 'Model', 'Generated')
+        for other in sorted(os.listdir(os.path.join(HERE, "props"))):
+            mm = re.match(r'^(c\d\d)\.py$', other)
+            if not mm:
+                continue
+            oid = mm.group(1).upper()
+            # every translator runs (about a second in total: Model files shared between properties import generated
+            # files too, e.g. Model.Mle <- Generated.MleSite); only a failure of this property's own translator, or of
+            # one whose Props module is imported here, counts as this run's broken obligation
+            relevant = oid == prop_id or ('Props/%s.lean' % oid) in closure_pre
+            try:
+                omod = mod if oid == prop_id else importlib.import_module('props.' + oid.lower())
+                if not hasattr(omod, 'translate'):
+                    continue
+                info = omod.translate(stage.REPO, gen_dir)
+                if oid == prop_id:
+                    gen_info = info
+                log('translator%s: %s' % ('' if oid == prop_id else ' (' + oid + ')', info.get('summary', 'ok')))
+            except Exception as e:  # noqa
+                if not relevant:
+                    log('translator of %s failed (not imported by %s): %s' % (oid, prop_id, e))
+                    continue
+                # the source no longer has the shape the translator reads: the tie between model and source is
+                # broken (not a violation by itself).  The previously generated files stay in place, the
+                # correspondence run searches for a failing input, and the verdict is at best no-failing-input-found.
+                translator_broken = 'translator (%s) could not read the current source: %s: %s' % (oid, type(e).__name__, e)
+                if oid == prop_id:
+                    gen_info = {'summary': 'FAILED', 'error': translator_broken}
+                log(translator_broken)
         # 2. lean build
         lean.build_driver()
         modules = getattr(mod, 'LEAN_MODULES', ['Props.' + prop_id])
@@ -388,6 +420,8 @@ def main(argv=None):
         if not ok:
             proof_broken = out
             log('lake build of %s FAILED' % modules)
+        elif translator_broken:
+            proof_broken = translator_broken
         # 3. audit
         hits = forbidden_tokens(modules + ['Driver.Main' + prop_id])
         if hits:
@@ -498,7 +532,8 @@ def main(argv=None):
             what = []
             payload = {'property': prop_id, 'kind': 'no-failing-input-found', 'seed': seed}
             if proof_broken:
-                what.append('proof obligation no longer checks: lake build %s' % ' '.join(modules))
+                what.append(proof_broken[:300] if translator_broken and proof_broken == translator_broken
+                            else 'proof obligation no longer checks: lake build %s' % ' '.join(modules))
                 payload['broken_obligation'] = {'modules': modules, 'lake_output_tail': proof_broken[-3000:]}
             if ctx.disagreements:
                 d = sorted(ctx.disagreements, key=lambda d: len(canon(d['replay'])))[0]
